@@ -124,15 +124,16 @@ def _conc_plan(prop, foci, text):
     return plan
 
 
-PLANS['C05'] = _conc_plan('C05', ['provider', 'mixed', 'multi'],
+PLANS['C05'] = _conc_plan('C05', ['provider', 'mixed', 'multi', 'reshape'],
                           'Oracle: provider compare-and-swap specification '
                           'linearised by commit order from the commit log; '
                           'serial-permutation replay of the successes.')
-PLANS['C06'] = _conc_plan('C06', ['consumer', 'mixed'],
+PLANS['C06'] = _conc_plan('C06', ['consumer', 'mixed', 'reshape'],
                           'Oracle: consumer compare-and-swap specification '
                           'linearised by commit order; final allocations == '
                           'last success in commit order.')
-PLANS['C07'] = _conc_plan('C07', ['mixed', 'provider', 'consumer', 'multi'],
+PLANS['C07'] = _conc_plan('C07', ['mixed', 'provider', 'consumer', 'multi',
+                                  'reshape'],
                           'Oracle: some serial permutation of the successful '
                           'requests, replayed from the start snapshot, gives '
                           'each of them success and the same stored state; '
